@@ -305,6 +305,27 @@ type caseSpec struct {
 	faults []int // indexes into env.faults (0, 1 or 2 of them)
 	flag   string
 	noTTY  bool
+	// logMode: "" or one of logModes - a log file that CAN be opened is
+	// configured on top of the faults (never together with a log fault).
+	logMode string
+}
+
+// Ways of configuring an openable log file: through the flag or through the
+// environment, the file not existing yet or already there with records in it.
+var logModes = []string{"flag-fresh", "env-fresh", "flag-existing", "env-existing"}
+
+// logEnvVar is the environment variable naming the default log file.
+const logEnvVar = "CURLREVSHELL_LOG"
+
+// openableLog prepares the log file of one case below dir (a directory the
+// unprivileged user may write in, a name without any cause keyword) and
+// returns its path.
+func openableLog(dir, mode string) string {
+	p := filepath.Join(roDir(filepath.Join(dir, "jr"), 0o777), "j.json")
+	if strings.HasSuffix(mode, "-existing") {
+		writeFile(p, []byte(`{"time":"2024-01-01T00:00:00Z","level":"INFO","msg":"earlier run"}`+"\n"), 0o666)
+	}
+	return p
 }
 
 func (e *env) names(c caseSpec) []string {
@@ -415,6 +436,11 @@ type runRecord struct {
 	ModeAfter  string   `json:"mode_after,omitempty"`
 	ModeSame   *bool    `json:"mode_restored,omitempty"`
 	WallMs     int64    `json:"wall_ms"`
+	// an openable log file configured on top of the faults
+	Log      string `json:"openable_log_file,omitempty"`
+	LogThere *bool  `json:"log_file_exists_after_run,omitempty"`
+	LogBytes int64  `json:"log_file_bytes_after_run,omitempty"`
+	LogTail  string `json:"log_file_tail,omitempty"`
 }
 
 func (e *env) runCase(c caseSpec, col *collector) {
@@ -471,6 +497,15 @@ func (e *env) runCase(c caseSpec, col *collector) {
 			strong = false
 		}
 	}
+	logPath := ""
+	if c.logMode != "" {
+		logPath = openableLog(dir, c.logMode)
+		if strings.HasPrefix(c.logMode, "flag-") {
+			extra = append(extra, "-log", logPath)
+		} else {
+			envv = append(dropEnv(envv, logEnvVar), logEnvVar+"="+logPath)
+		}
+	}
 	if uid != 0 && os.Getenv("VERIF_RACELOG") != "" {
 		// The race detector creates the directories of its log path at
 		// start-up and gives up (status 66) where it may not: an unprivileged
@@ -498,7 +533,13 @@ func (e *env) runCase(c caseSpec, col *collector) {
 	if classKey == "" {
 		classKey = "no-fault"
 	}
+	if c.logMode != "" {
+		classKey += "@openable-log"
+	}
 	sig := fmt.Sprintf("%v|%s|tty=%v", names, c.flag, !c.noTTY)
+	if c.logMode != "" {
+		sig += "|openable-log=" + c.logMode
+	}
 
 	t0 := time.Now()
 	p, err := ptyx.Start(ptyx.Opts{Path: e.bin, Args: args, Env: envv, Dir: dir, NoTTY: c.noTTY, Uid: uid})
@@ -531,6 +572,20 @@ func (e *env) runCase(c caseSpec, col *collector) {
 		_, _, exited = p.WaitExit(crs.Bound)
 	}
 	rec := runRecord{Faults: names, Flag: c.flag, TTY: !c.noTTY, Uid: uid, Args: args, Exited: exited, Listening: listening}
+	if c.logMode != "" {
+		rec.Log = c.logMode + ": " + logPath
+		if fi, err := os.Stat(logPath); err == nil {
+			opened := true
+			rec.LogThere = &opened
+			rec.LogBytes = fi.Size()
+			if b, err := os.ReadFile(logPath); err == nil {
+				rec.LogTail = tail(string(b), 400)
+			}
+		} else {
+			opened := false
+			rec.LogThere = &opened
+		}
+	}
 	if defaultCache {
 		for _, kv := range envv {
 			if strings.HasPrefix(kv, "HOME=") || strings.HasPrefix(kv, "XDG_CACHE_HOME=") {
@@ -610,6 +665,29 @@ func (e *env) runCase(c caseSpec, col *collector) {
 		r.Count("strong_oracle_runs", 1)
 	} else {
 		r.Count("weak_oracle_runs", 1)
+	}
+	if c.logMode != "" {
+		r.Count("openable_log_runs", 1)
+		r.Count("openable_log_runs_"+c.logMode, 1)
+		if c.noTTY {
+			r.Count("openable_log_runs_notty", 1)
+		} else {
+			r.Count("openable_log_runs_tty", 1)
+		}
+		if len(c.faults) == 2 {
+			r.Count("openable_log_pairs", 1)
+		}
+		if strong {
+			r.Count("openable_log_strong_oracle_runs", 1)
+			for _, cl := range classes {
+				r.Count("openable_log_strong_oracle_runs_class_"+cl, 1)
+			}
+			// Without an informational flag the log file is opened before
+			// anything else can fail: afterwards it is there.
+			if rec.LogThere != nil && *rec.LogThere {
+				r.Count("openable_log_file_there_after_run", 1)
+			}
+		}
 	}
 
 	viol := func(key, what string) {
@@ -694,6 +772,12 @@ func (e *env) runCase(c caseSpec, col *collector) {
 			if defaultCache {
 				r.Count("default_location_cache_faults_reported_cleanly", 1)
 			}
+			if c.logMode != "" {
+				r.Count("openable_log_faults_reported_cleanly", 1)
+				for _, cl := range classes {
+					r.Count("openable_log_faults_reported_cleanly_class_"+cl, 1)
+				}
+			}
 			for _, op := range operands {
 				if strings.Contains(out, op) {
 					r.Count("cause_operand_in_message", 1)
@@ -727,6 +811,9 @@ func (e *env) runCase(c caseSpec, col *collector) {
 	}
 	if !c.noTTY && c.flag == flNone {
 		kind += "-tty"
+	}
+	if c.logMode != "" {
+		kind += "-with-openable-log"
 	}
 	r.Sample(kind, rec)
 	if len(c.faults) == 1 && !c.noTTY && c.flag == flNone {
@@ -1174,13 +1261,17 @@ func probeUid(r *mon.Run, root string) (bool, string) {
 }
 
 func Run(r *mon.Run) {
-	r.Rule = "one distinct case = (set of injected start-up faults by name, informational flag, TTY or not) for fault runs, (way of ending, option set) for clean exits; every case is a run of the real, race-built binary judged on exit status, complete output and termios of the pty before/after"
+	r.Rule = "one distinct case = (set of injected start-up faults by name, informational flag, TTY or not, and - engines logged/loggedpair - the way an OPENABLE log file is configured on top: -log or CURLREVSHELL_LOG, file fresh or already there) for fault runs, (way of ending, option set) for clean exits, (way of ending, when Tab was pressed relative to it, shell none/attached/stalled, kind of Ctrl+I source, option set) for exits with insertions pending; every case is a run of the real, race-built binary judged on exit status, complete output and termios of the pty before/after"
 	r.Assumptions = append(r.Assumptions,
 		"the program is started as a session leader on a fresh pty (TTY) or with setsid, no controlling terminal and stdio on pipes/dev-null (no TTY)",
 		"'names the cause' is judged by class keywords (tty|terminal, listen, cach|certificate, log, ctrl+i|insert|source), case-insensitively, on pty+stdout+stderr; the offending path/address is only counted, not demanded",
 		"with an informational flag, or with a -ctrl-i FIFO, only the weak oracle applies: no crash output, mode restored, a non-zero status comes with a cause",
 		"'unwritable' faults run the binary as uid 65534 against root-owned 0555/0500/0444 objects (checked by a probe)",
 		"privileged-port listen faults: uid 65534 asks for a port below net.ipv4.ip_unprivileged_port_start on 127.0.0.1 (refusal checked by a probe running as that user)",
+		"openable-log dimension: every fault except the log faults (whose -log argument is the unopenable file), alone and in cross-class pairs, on a TTY and without one, is also run with a log file that CAN be opened (-log FILE or CURLREVSHELL_LOG=FILE; not existing yet, or existing with a record in it; writable for uid 65534 where the fault needs that user); the oracle is unchanged: non-zero status and a message naming the cause on the terminal / stdout / stderr - what the program writes into the log file does not count as telling the operator; the file being there after a run without informational flag is counted (the log is opened before the later start-up steps)",
+		"pending-insertion exits: -ctrl-i names a non-empty file or directory; Tab is pressed once or many times in the same write as Ctrl+C/Ctrl+D (optionally after a complete or an unfinished line), or the exit follows the announcement ('Inserting') or the completion ('Inserted') of the insertion, or Tab is pressed in batches of 64 until insertions stop completing (no shell attached and up to 199 lines entered first, or a shell that never reads its input and a 16-32 KiB source) plus 0-5 more; ended by Ctrl+C, Ctrl+D or (light variants only) by the end of the shell under -one-shell; judged like the other clean exits: status 0, no crash output, terminal mode restored; 'Goodbye' is only counted",
+		"a shell that never reads keeps the program from finishing its exit (not an exit, hence outside this property): in the stalled-shell scenarios its connections are dropped 2 s after Ctrl+C/Ctrl+D if the program is still there, and since the exit then coincides with a broken connection only crash output, signals and the terminal mode are judged there, a non-zero status is counted",
+		"whether insertions were unfinished at the exit is read off the final terminal text (more 'Inserting' than 'Inserted' lines, or fewer announcements than Tabs); time-outs only steer the workload (when to stop pressing Tab), never a verdict",
 		"default-location cache faults: no -tls-certificate-cache argument; HOME / XDG_CACHE_HOME point below /proc, below a regular file, or (uid 65534) into a root-owned 0555 directory",
 	)
 
@@ -1339,6 +1430,69 @@ func Run(r *mon.Run) {
 			}
 		}
 	}
+	// ---- the same faults with an openable log file configured ----
+	// Index of a case = its place in the full product (fault or none, flag,
+	// TTY or not, way of configuring the log file), the same in both tiers.
+	// Log faults are left out: their -log argument is the unopenable file.
+	addLogged := func(engine string, index int, fs []int, flag string, noTTY bool, mode string) {
+		c := caseSpec{engine: engine, index: index, faults: fs, flag: flag, noTTY: noTTY, logMode: mode}
+		if e.hasClass(c, clLog) || (flag == flCtrlI && e.hasClass(c, clCtrlI)) {
+			return
+		}
+		if len(fs) == 0 && !noTTY && flag == flNone {
+			return // a normal run with a log file: covered by the clean exits
+		}
+		if r.Want(engine, index) {
+			cases = append(cases, c)
+		}
+	}
+	rot := int(r.Seed & 0xffff)
+	for f := -1; f < len(e.faults); f++ {
+		var fs []int
+		if f >= 0 {
+			fs = []int{f}
+		}
+		for fi, flag := range allFlags {
+			for ti, noTTY := range []bool{false, true} {
+				for mi, mode := range logModes {
+					index := (((f+1)*len(allFlags)+fi)*2+ti)*len(logModes) + mi
+					if !r.Thorough() {
+						// quick: without a flag, every fault on a TTY and
+						// without one, once through -log and once through the
+						// environment; one informational flag per fault; the
+						// fault-free runs with every flag.
+						want := mi == (f+1+ti+rot)%len(logModes)
+						if flag != flNone && f >= 0 {
+							want = want && fi == 1+(f+rot)%3 && ti == (f+rot)%2
+						}
+						if !want {
+							continue
+						}
+					}
+					addLogged("logged", index, fs, flag, noTTY, mode)
+				}
+			}
+		}
+	}
+	if r.Thorough() {
+		for i, p := range prs {
+			for ti, noTTY := range []bool{false, true} {
+				addLogged("loggedpair", i*2+ti, []int{p.a, p.b}, flNone, noTTY, logModes[(i+ti+rot)%len(logModes)])
+			}
+		}
+	} else {
+		var nl []pr
+		for _, p := range prs {
+			if e.faults[p.a].class != clLog && e.faults[p.b].class != clLog {
+				nl = append(nl, p)
+			}
+		}
+		for i := 0; i < 16; i++ {
+			rng := r.Rng("loggedpair", i)
+			p := nl[rng.IntN(len(nl))]
+			addLogged("loggedpair", i, []int{p.a, p.b}, flNone, rng.IntN(3) == 0, logModes[rng.IntN(len(logModes))])
+		}
+	}
 	r.Extra("fault_pairs_possible", len(prs))
 	r.Logf("%d faults, %d cross-class pairs, %d fault runs planned", len(e.faults)+1, len(prs), len(cases))
 
@@ -1378,8 +1532,23 @@ func Run(r *mon.Run) {
 	})
 	r.Logf("clean exits done")
 
+	// ---- exits with insertions pending ----
+	// quick: every scenario once and the light ones a second time.
+	nPend := len(pendLight) + len(pendFull)
+	nPend = r.N(nPend+len(pendLight), 4*nPend)
+	var pd []int
+	for i := 0; i < nPend; i++ {
+		if r.Want("pending", i) {
+			pd = append(pd, i)
+		}
+	}
+	mon.Parallel(len(pd), 8, func(i int) {
+		guard(fmt.Sprintf("pending-%d", pd[i]), func() { e.runPending(pd[i], col) })
+	})
+	r.Logf("exits with insertions pending done")
+
 	// Report in a fixed order (engine, index), not in completion order.
-	order := map[string]int{"single": 0, "pair": 1, "clean": 2, "icanhazip": 3}
+	order := map[string]int{"single": 0, "pair": 1, "logged": 2, "loggedpair": 3, "clean": 4, "icanhazip": 5, "pending": 6}
 	sort.SliceStable(col.fs, func(i, j int) bool {
 		a, b := col.fs[i], col.fs[j]
 		if order[a.engine] != order[b.engine] {
@@ -1395,16 +1564,56 @@ func Run(r *mon.Run) {
 	}
 
 	if r.Thorough() {
-		r.Floor("runs", 700)
+		r.Floor("runs", 1700)
 		r.Floor("pairs", 400)
 		r.Floor("informational_flag_runs", 400)
 		r.Floor("clean_exit_runs", 30)
 	} else {
-		r.Floor("runs", 110)
+		r.Floor("runs", 220)
 		r.Floor("pairs", 40)
 		r.Floor("informational_flag_runs", 60)
 		r.Floor("clean_exit_runs", 10)
 	}
+	// An openable log file on top of the faults.
+	if r.Thorough() {
+		r.Floor("openable_log_runs", 800)
+		r.Floor("openable_log_pairs", 250)
+		r.Floor("openable_log_faults_reported_cleanly", 400)
+		r.Floor("openable_log_file_there_after_run", 400)
+	} else {
+		r.Floor("openable_log_runs", 80)
+		r.Floor("openable_log_pairs", 12)
+		r.Floor("openable_log_faults_reported_cleanly", 50)
+		r.Floor("openable_log_file_there_after_run", 50)
+	}
+	for _, m := range logModes {
+		r.Floor("openable_log_runs_"+m, 12)
+	}
+	r.Floor("openable_log_runs_tty", 30)
+	r.Floor("openable_log_runs_notty", 30)
+	for _, cl := range []string{clNoTTY, clListen, clCache, clCtrlI} {
+		r.Floor("openable_log_strong_oracle_runs_class_"+cl, 4)
+		r.Floor("openable_log_faults_reported_cleanly_class_"+cl, 4)
+	}
+	// Exits with insertions pending.
+	r.Floor("pending_exit_runs", int64(r.N(22, 52)))
+	r.Floor("pending_termios_comparisons", int64(r.N(22, 52)))
+	for _, x := range []string{"ctrl-c", "ctrl-d", "one-shell"} {
+		r.Floor("pending_exit_runs_"+x, 3)
+	}
+	for _, x := range []string{"at-once", "after-started", "after-done", "queue-full"} {
+		r.Floor("pending_exit_runs_tab-"+x, 3)
+	}
+	for _, x := range []string{"none", "attached", "stalled"} {
+		r.Floor("pending_exit_runs_shell-"+x, 2)
+	}
+	for _, sp := range pendFull {
+		r.Floor("pending_exits_with_queue_full:"+sp.how(), 1)
+	}
+	r.Floor("pending_exits_with_unfinished_insertion", 4)
+	r.Floor("pending_exits_with_unfinished_insertion_ctrl-c", 2)
+	r.Floor("pending_exits_with_unfinished_insertion_ctrl-d", 2)
+	r.Floor("pending_tabs_pressed", 2000)
 	r.Floor("runs_tty", 50)
 	r.Floor("runs_notty", 25)
 	r.Floor("termios_comparisons", 50)
